@@ -12,12 +12,14 @@ import refxml, refxpath as X, refxslt, refnum, gen_xslt, xsltcommon as XC
 HEAD = gen_xslt.HEAD
 NUMVALS = ['1', '2', '10', '3', '3', '2', '-1', '0', '-0', '0.5', '1e400', 'NaN', '', 'abc', ' 7 ', '135792468', '135792468', '1000000', '2.50', '-Infinity', '007', '1e3']
 TXTVALS = ['a', 'b', 'ab', 'abc', 'b', 'a', 'ba', 'c', '', 'aa', 'x', 'abd', '1', '2', '10', '01']
+CASEVALS = ['a', 'A', 'b', 'B', 'ab', 'AB', 'a', 'B', '', 'c', 'C', 'aa', 'AA', 'b1', 'B1']      # one case per string: the order of mixed-case strings is a collation detail
+LANGS = ['en', 'fr', 'de', 'en-US', 'it', 'nl']
 
 
 def gen_doc(r, n):
     items = []
     for i in range(n):
-        items.append('<i id="n%d" a="%s" b="%s" c="%s" d="%s">%s</i>' % (i, r.choice(NUMVALS), r.choice(TXTVALS), r.choice(NUMVALS[:8]), r.choice(TXTVALS[:6]), r.choice(NUMVALS + TXTVALS)))
+        items.append('<i id="n%d" a="%s" b="%s" c="%s" d="%s" e="%s">%s</i>' % (i, r.choice(NUMVALS), r.choice(TXTVALS), r.choice(NUMVALS[:8]), r.choice(TXTVALS[:6]), r.choice(CASEVALS), r.choice(NUMVALS + TXTVALS)))
     groups = ''.join('<g id="g%d">%s</g>' % (j, ''.join(r.sample(items, min(len(items), r.choice([0, 1, 2, 5])))).replace(' id="n', ' id="g%dm' % j)) for j in range(3)) if n else ''
     return '<doc>%s%s</doc>' % (''.join(items), groups)
 
@@ -27,20 +29,35 @@ KEYS = [('@a', 'number'), ('@c', 'number'), ('@b', 'text'), ('@d', 'text'), ('.'
 
 
 def gen_sorts(r):
+    """[(select, data-type, order, extra attributes)]; a text key may name a language (the collator of that language is used; for these
+    alphabets every one of them orders like the code points) and a case order (then the key is @e, whose values differ in case)"""
     ks = []
     for _ in range(r.choice([1, 1, 2, 2, 3, 4])):
         sel, dt = r.choice(KEYS)
         order = r.choice(['ascending', 'ascending', 'descending'])
-        ks.append((sel, dt, order))
+        extra = ''
+        if dt == 'text':
+            k = r.random()
+            if k < 0.25:
+                # values that differ in case: always with a language (without one the collation is the environment's)
+                sel = '@e'
+                extra = ' lang="%s"' % r.choice(LANGS)
+                if r.random() < 0.7:
+                    extra += ' case-order="%s"' % r.choice(['upper-first', 'lower-first'])
+            elif k < 0.5:
+                extra = ' lang="%s"' % r.choice(LANGS + ['{substring(\'enfrde\', 1 + 2 * (count(//i) mod 3), 2)}'])
+                if r.random() < 0.3:
+                    extra += ' case-order="%s"' % r.choice(['upper-first', 'lower-first'])
+        ks.append((sel, dt, order, extra))
     return ks
 
 
 def sort_xml(ks):
-    return ''.join('<xsl:sort select="%s" data-type="%s" order="%s"/>' % (gen_xslt.aesc(s), d, o) for s, d, o in ks)
+    return ''.join('<xsl:sort select="%s" data-type="%s" order="%s"%s/>' % (gen_xslt.aesc(s), d, o, x) for s, d, o, x in ks)
 
 
 def emit(ks):
-    keyattrs = ''.join(' k%d="{%s}"' % (i, s) for i, (s, d, o) in enumerate(ks))
+    keyattrs = ''.join(' k%d="{%s}"' % (i, s) for i, (s, d, o, x) in enumerate(ks))
     return '<r id="{@id}" p="{position()}" l="{last()}"%s/>' % keyattrs
 
 
@@ -60,8 +77,8 @@ def case(ctx, idx, res):
     if nested:
         # a second sort inside the body of the first (same NodeSorter), over a list of (often) the same length
         inner = '<xsl:for-each select="%s">%s<s id="{@id}" p="{position()}"%s/></xsl:for-each>' % (
-            r.choice(['/doc/i', '../i', '/doc/g[1]/i', '/doc/i[position() &lt; 4]']), sort_xml(ks2), ''.join(' k%d="{%s}"' % (i, s) for i, (s, d, o) in enumerate(ks2)))
-    body = '<r id="{@id}" p="{position()}" l="{last()}"%s>%s</r>' % (''.join(' k%d="{%s}"' % (i, s) for i, (s, d, o) in enumerate(ks)), inner)
+            r.choice(['/doc/i', '../i', '/doc/g[1]/i', '/doc/i[position() &lt; 4]']), sort_xml(ks2), ''.join(' k%d="{%s}"' % (i, s) for i, (s, d, o, x) in enumerate(ks2)))
+    body = '<r id="{@id}" p="{position()}" l="{last()}"%s>%s</r>' % (''.join(' k%d="{%s}"' % (i, s) for i, (s, d, o, x) in enumerate(ks)), inner)
     if via == 'for-each':
         main = '<xsl:for-each select="%s">%s%s</xsl:for-each>' % (sel, sort_xml(ks), body)
         tpl = ''
@@ -72,6 +89,10 @@ def case(ctx, idx, res):
     rx = runner.transform(xsl, xml)
     payload = {'stylesheet': xsl, 'document': xml}
     res.count('sorts')
+    if any('lang=' in k[3] for k in ks + (ks2 if nested else [])):
+        res.count('sorts_with_lang')
+    if any('case-order=' in k[3] for k in ks + (ks2 if nested else [])):
+        res.count('sorts_with_case_order')
     res.count('sorted_nodes', n)
     res.sig = (tuple(ks), via, nested, min(n, 10))
     res.sample = {'keys': ks, 'via': via, 'nodes': n, 'nested': nested}
@@ -113,10 +134,13 @@ def case(ctx, idx, res):
         res.count('reference_error')
 
 
-def keyval(s, dt):
+def keyval(s, dt, extra=''):
     if dt == 'number':
         x = refnum.number_of(s)
         return (0, 0.0) if x != x else (1, x)
+    if 'lang=' in extra:
+        m = re.search(r'case-order="([a-z\-]+)"', extra)
+        return refxslt.text_sort_key(s, m.group(1) if m else 'lower-first')      # lower-case first is the default of the languages named
     return s
 
 
@@ -140,8 +164,8 @@ def check_sequence(selection, rows, ks, inner=False):
     for i in range(n - 1):
         a, b = rows[i], rows[i + 1]
         c = 0
-        for j, (sel, dt, order) in enumerate(ks):
-            x, y = keyval(a['k%d' % j], dt), keyval(b['k%d' % j], dt)
+        for j, (sel, dt, order, extra) in enumerate(ks):
+            x, y = keyval(a['k%d' % j], dt, extra), keyval(b['k%d' % j], dt, extra)
             if x != y:
                 c = -1 if x < y else 1
                 if order == 'descending':
@@ -159,11 +183,11 @@ def main():
     chk.rule = ('node lists of 0-300 nodes with duplicate key values, NaN-producing strings, -0, 1e400, the cache sentinel 135792468, empty strings x 1-4 sort '
                 'keys mixing order and data-type x for-each / apply-templates x nested sorts over lists of equal length. A case is one sort; '
                 'non-trivial = all; distinct = distinct (key list, instruction, nested, size class).')
-    chk.assumptions = ['text keys only over lower-case ASCII letters and digits (collation unambiguous)', 'descending numeric sorts put NaN last (reverse of ascending)', 'key strings are read from the same run (AVT of the key expression)']
+    chk.assumptions = ['text keys only over ASCII letters and digits, each string in one case (collation unambiguous: for lang en / fr / de / it / nl the letters order like the code points, digits first; case only breaks ties, as case-order says, lower case first by default); values that differ in case are only sorted with a language given, since without one the collation is that of the environment (the C / POSIX locale here: code points)', 'descending numeric sorts put NaN last (reverse of ascending)', 'key strings are read from the same run (AVT of the key expression)']
     chk.ensure('plain', 'xvdrv')
     n = 4000 if chk.tier == 'quick' else 30000
     chk.run_cases('c16', 'case', range(n))
-    chk.finish(min_nontrivial=100, required_stats=('sorts', 'agree_with_reference', 'nested_sorts'))
+    chk.finish(min_nontrivial=100, required_stats=('sorts', 'agree_with_reference', 'nested_sorts', 'sorts_with_lang', 'sorts_with_case_order'))
 
 
 if __name__ == '__main__':
